@@ -60,6 +60,12 @@ CHECKS = {
         "TLC validates Req subseteq Avail and XGETBV=>OSXSAVE for every pair, and reports drift between the transcribed resolver macros and the real choice (currently 0 of 816,480). 'All choices agree' is decided by C01-C04, C08, C13, C20 which execute every variant.",
    note="Trusted: closure rules R1-R13 (what counts as an architecturally consistent CPU); the mnemonic/encoding classifier (lib/isa_classify.py); TLC.",
    technique="TLC enumeration of the TLA+ configuration space; trace validation of the real resolvers' selections against Dispatch!Avail"),
+ "C18": dict(cat="exploration", ref="DESIGN.md §3 C18",
+   text="isal_hufftables structures built by both builders from adversarial histograms (all-zero, single/two symbols, uniform, powers of two, Fibonacci depth-limit cases, values near 2^44, zero end-of-block count, collected by every isal_update_histogram variant) are dumped and judged by TLC with spec/HuffTables.tla: "
+        "the stored header must parse (RFC 1951 header parser of Deflate.tla) to complete prefix codes with lengths <= 15, an EOB code, lit+len+dist <= 56 bits, and the encoder's lit/len/dist tables must equal the bit-reversed canonical codes; "
+        "data is then compressed with each table (level 0, all flush modes, one-shot/streaming) and judged as in C01; set_hufftables attempted after every call must be refused while a block is open.",
+   note="Trusted: HuffTables.tla / Deflate.tla; struct layout as documented in igzip_lib.h; default (2-entry dist table) build.",
+   technique="trace validation of dumped table structures and of compression traces against the TLA+ table-validity and decoder specs"),
  "C19": dict(cat="model_checking", ref="DESIGN.md §3 C19",
    text="Recorded behaviour of the header writers and the resumable header readers is validated by TLC against the RFC 1952/1950 layouts in spec/Wrappers.tla: written bytes must be exactly as long as the layout and parse back (RFC byte order, FCHECK, CRC16) to the given fields, "
         "or the required size with the stream untouched; readers are driven over every split point of headers with every subset of optional fields, 1-byte chunks, undersized user buffers with growth (resume) and without, python-gzip-made headers, FDICT zlib headers and random byte strings, "
